@@ -1,6 +1,7 @@
 package linter
 
 import (
+	"maps"
 	"strings"
 
 	"github.com/ysugimoto/falco/v2/ast"
@@ -25,11 +26,44 @@ type ignore struct {
 	ignoreNextLine ignoredRules
 	ignoreThisLine ignoredRules
 	ignoreRange    ignoredRules
+	// next-line / this-line sets saved by the setup of every statement and block being linted.
+	// Teardown restores them, so that a nested directive never cancels an enclosing one.
+	saved []savedRules
+}
+
+type savedRules struct {
+	nextLine ignoredRules
+	thisLine ignoredRules
 }
 
 type ignoredRules struct {
 	all   bool
 	rules map[Rule]bool
+}
+
+func (r ignoredRules) clone() ignoredRules {
+	c := ignoredRules{all: r.all}
+	if len(r.rules) > 0 {
+		c.rules = maps.Clone(r.rules)
+	}
+	return c
+}
+
+func (i *ignore) save() {
+	i.saved = append(i.saved, savedRules{
+		nextLine: i.ignoreNextLine.clone(),
+		thisLine: i.ignoreThisLine.clone(),
+	})
+}
+
+func (i *ignore) restore() {
+	n := len(i.saved)
+	if n == 0 {
+		return
+	}
+	i.ignoreNextLine = i.saved[n-1].nextLine
+	i.ignoreThisLine = i.saved[n-1].thisLine
+	i.saved = i.saved[:n-1]
 }
 
 func ignoreRules(ignoredRules *ignoredRules, rules []Rule) {
@@ -41,7 +75,6 @@ func ignoreRules(ignoredRules *ignoredRules, rules []Rule) {
 		return
 	}
 
-	ignoredRules.all = false
 	if ignoredRules.rules == nil {
 		ignoredRules.rules = make(map[Rule]bool)
 	}
@@ -97,6 +130,8 @@ func parseIgnoreComment(comment string) (string, []Rule) {
 // Then leading comments accept falco-ignore-next-line, falco-ignore-start, falco-ignore-end
 // trailing comments accept falco-ignore
 func (i *ignore) SetupStatement(meta *ast.Meta) {
+	i.save()
+
 	// Find ignore signature in leading comments
 	for _, c := range meta.Leading {
 		switch ignoreType, rules := parseIgnoreComment(c.String()); ignoreType {
@@ -120,19 +155,7 @@ func (i *ignore) SetupStatement(meta *ast.Meta) {
 
 // Clean up common statements, declarations
 func (i *ignore) TeardownStatement(meta *ast.Meta) {
-	for _, c := range meta.Leading {
-		ignoreType, rules := parseIgnoreComment(c.String())
-		if ignoreType == falcoIgnoreNextLine {
-			unignoreRules(&i.ignoreNextLine, rules)
-		}
-	}
-
-	for _, c := range meta.Trailing {
-		ignoreType, rules := parseIgnoreComment(c.String())
-		if ignoreType == falcoIgnoreThisLine {
-			unignoreRules(&i.ignoreThisLine, rules)
-		}
-	}
+	i.restore()
 }
 
 // Block statement is special, the comment placing is following:
@@ -147,6 +170,8 @@ func (i *ignore) TeardownStatement(meta *ast.Meta) {
 //
 // So we need to divide parsing leading and trailing comment by setup and teardown
 func (i *ignore) SetupBlockStatement(meta *ast.Meta) {
+	i.save()
+
 	for _, c := range meta.Leading {
 		switch ignoreType, rules := parseIgnoreComment(c.String()); ignoreType {
 		case falcoIgnoreNextLine:
@@ -159,18 +184,11 @@ func (i *ignore) SetupBlockStatement(meta *ast.Meta) {
 	}
 }
 func (i *ignore) TeardownBlockStatement(meta *ast.Meta) {
-	for _, c := range meta.Leading {
-		ignoreType, rules := parseIgnoreComment(c.String())
-		if ignoreType == falcoIgnoreNextLine {
-			unignoreRules(&i.ignoreNextLine, rules)
-		}
-	}
+	i.restore()
 
 	for _, c := range meta.Trailing {
-		switch ignoreType, rules := parseIgnoreComment(c.String()); ignoreType {
-		case falcoIgnoreThisLine:
-			unignoreRules(&i.ignoreThisLine, rules)
-		case falcoIgnoreEnd:
+		ignoreType, rules := parseIgnoreComment(c.String())
+		if ignoreType == falcoIgnoreEnd {
 			unignoreRules(&i.ignoreRange, rules)
 		}
 	}
